@@ -427,9 +427,9 @@ def tie_d(prop, tier, cases=(), priority=()):
         elif prop == 'C09':
             ok = cid.startswith('d1/') and (p.get('trait') in ('Clone', 'Copy') or 'union' in cid)
         elif prop == 'C17':
-            ok = cid.startswith('d2/eq/') or cid.startswith('d2/eqbound/') or cid.startswith('d2/union/')
+            ok = cid.startswith('d2/eq') or cid.startswith('d2/union/')
         elif prop == 'C06':
-            ok = cid.startswith('d2/traitless/') or cid.startswith('d2/eq/')
+            ok = cid.startswith('d2/traitless/') or cid.startswith('d2/eq')
         else:
             ok = True
         if ok:
@@ -456,6 +456,7 @@ def tie_e(prop, cases, seed, tier, priority):
     with concurrent.futures.ThreadPoolExecutor(max_workers=10) as ex:
         futs = {ex.submit(tieb.run, c, cases, seed, limit, None, None, priority, True): ('hostile', c) for c in cfgs}
         futs.update({ex.submit(tieb.run_nostd, c, cases, seed, limit * 2, priority): ('no_std', c) for c in cfgs})
+        futs.update({ex.submit(tieb.run_crateopt, c): ('crate_option', c) for c in cfgs})
         for f in concurrent.futures.as_completed(futs):
             st, pr = f.result()
             out.setdefault(futs[f][0], {})[futs[f][1]] = {k: v for k, v in st.items() if not k.startswith('_')}
@@ -465,7 +466,8 @@ def tie_e(prop, cases, seed, tier, priority):
     known_f4 = [p for p in problems if p['kind'] == 'compile' and any('E0599' in e and '`from`' in e and 'raw pointer' in e for e in p['errors'])]
     rest = [p for p in problems if p not in known_f4]
     stats = dict(hostile_items=sum(s.get('compared', 0) for s in out['hostile'].values()), hostile_observations=sum(s.get('observations', 0) for s in out['hostile'].values()),
-                 no_std_items=sum(s['items'] for s in out['no_std'].values()), known_F4_class_items=len(known_f4), per_cfg=out)
+                 no_std_items=sum(s['items'] for s in out['no_std'].values()), crate_option_items=sum(s['items'] for s in out['crate_option'].values()),
+                 known_F4_class_items=len(known_f4), per_cfg=out)
     return stats, rest
 
 
@@ -563,7 +565,9 @@ def check(prop, tier, seed):
                 model_sem_mismatch.append(p)
             continue
         elif p['kind'] == 'compile':
-            owned = prop == 'C02'
+            # an accepted item whose real expansion does not compile: C02's subject, and a failing input for whichever property owns
+            # the slice in which the model and the implementation differ on that very item
+            owned = prop == 'C02' or p['case'] in {d['case'] for d in mine}
         elif p['kind'] == 'abort':
             owned = prop in ('C12', 'C02') or p.get('tag') in TIEB_TAGS.get(prop, [])
         elif p['kind'] == 'cfg-difference':
